@@ -58,7 +58,7 @@ mutant("ret-notifies-reti", ["C06"], [("op_callret.go", """func oopRET(cpu *CPU)
 	if cpu.RETIHandler != nil {
 		cpu.RETIHandler.RETIHandle()
 	}""")])
-mutant("im2-no-lsb-mask-off-by-table", ["C06"], [("cpu.go", "cpu.PC = cpu.readU16(toU16(cpu.Interrupt.Data[0]&0xfe, cpu.IR.Hi))", "cpu.PC = cpu.readU16(toU16(cpu.Interrupt.Data[0]&0xfe, cpu.IR.Hi+cpu.IR.Lo>>7))")],
+mutant("im2-no-lsb-mask-off-by-table", ["C06"], [("cpu.go", "cpu.PC = cpu.readU16(toU16(vector, cpu.IR.Hi))", "cpu.PC = cpu.readU16(toU16(vector, cpu.IR.Hi+cpu.IR.Lo>>7))")],
        note="IM 2 table page taken from I + bit 7 of R: only wrong when R bit 7 is set")
 mutant("nmi-keeps-iff2", ["C06"], [("cpu.go", """		cpu.IFF2 = cpu.IFF1
 		cpu.IFF1 = false
@@ -286,7 +286,7 @@ mutant("dumbmemory-set-unguarded", ["C12"], [("memio.go", """func (dm DumbMemory
 mutant("ini-calls-io-directly", ["C12"], [("op_inout.go", """func oopIND(cpu *CPU) {
 	cpu.Memory.Set(cpu.HL.U16(), cpu.ioIn(cpu.BC.Lo))""", """func oopIND(cpu *CPU) {
 	cpu.Memory.Set(cpu.HL.U16(), cpu.IO.In(cpu.BC.Lo))""")], note="nil IO panics on IND only")
-mutant("ed-invalid-reexecutes-second-byte", ["C12"], [("operation.go", """		case 0xbb:
+mutant("ed-invalid-reexecutes-second-byte", [], quiet=["C12"], edits=[("operation.go", """		case 0xbb:
 			oopOTDR(cpu)
 
 		default:
@@ -297,7 +297,7 @@ mutant("ed-invalid-reexecutes-second-byte", ["C12"], [("operation.go", """		case
 		default:
 			cpu.invalidCode(c0, c1)
 			cpu.PC--
-		}""")], note="unsupported ED xx: second byte is executed again as an opcode")
+		}""")], note="unsupported ED xx: only the prefix is consumed, the second byte is decoded again. Since the second informed review (F.6 A3) this is within the reading of 'consumed and execution continues with the next byte': must stay quiet")
 mutant("im-out-of-range-indexes-table", ["C12"], [("cpu.go", """	switch cpu.IM {
 	case 0:
 		// Interrupt with IM 0""", """	_ = [3]int{}[cpu.IM&0xff]
